@@ -580,6 +580,10 @@ func (o *c12) Step(r *StepRec) []Violation {
 			o.fail("c12:counts:"+a.Kind, "context %s batch %d records %d requests / %d responses; %d were issued, %d accepted",
 				short(cid), rc.BatchCounter, rc.BatchRequestCount, rc.BatchResponseCount, t.issued, t.accepted)
 		}
+		if rc.BatchResponseThreshold != t.threshold {
+			o.fail("c12:threshold:"+a.Kind, "context %s batch %d runs under response threshold %d, the threshold in force when it started was %d",
+				short(cid), rc.BatchCounter, rc.BatchResponseThreshold, t.threshold)
+		}
 		wantState := types.BATCHRUNNING
 		if t.completed {
 			wantState = types.BATCHCOMPLETED
